@@ -177,6 +177,10 @@ Definition dispatch (op : string) (args : list tok) : option (outcome (list tok)
     match args with [TI n; TB elems] => Some (out1 (SerdeImpl.visit_seq (Z.to_nat n) elems)) | _ => None end
   else if String.eqb op "serde.visit_bytes" then
     match args with [TI n; TB v] => Some (out1 (SerdeImpl.visit_bytes (Z.to_nat n) v)) | _ => None end
+  else if String.eqb op "serde.heap_visit_seq" then
+    match args with [TI hint; TB elems] => Some (out1 (SerdeImpl.heap_visit_seq (Z.to_nat hint) elems)) | _ => None end
+  else if String.eqb op "serde.heap_visit_bytes" then
+    match args with [TB v] => Some (out1 (SerdeImpl.heap_visit_bytes v)) | _ => None end
   else if String.eqb op "bytes.secretbox.from_bytes" then
     match args with [TB v] => Some (omap (fun p => [TB (fst p); TB (snd p)]) (SerdeImpl.secretbox_from_bytes v)) | _ => None end
   else if String.eqb op "bytes.box.from_bytes" then
